@@ -2,12 +2,12 @@
    node is not touched after its callback started, and no call blocks or stops on valid use.
    Statements only; proofs are in Qs/QsWoProofs.v, Qs/QsWoGen.v (whole-operation granularity) and
    Qs/QsFgProofs.v, Qs/QsFgThms.v, Qs/QsFgGen.v (one atomic access or mutex call per step),
-   Qs/QsHbProofs.v, Qs/QsHbGen.v (vector clocks).
+   Qs/QsHbProofs.v, Qs/QsHbBarrier.v, Qs/QsHbGen.v (vector clocks).
    Model: Qs/QsModel.v; source-derived facts: Gen/QsOrders.v (translator/gen_qs.py). *)
 From Coq Require Import List NArith Bool Arith.
 Import ListNotations.
 From FV Require Import Qs.QsTypes Qs.QsModel Qs.QsFgModel Qs.QsGenOk Qs.QsWoProofs Qs.QsWoLive Qs.QsWoGen
-  Qs.QsFgProofs Qs.QsFgThms Qs.QsFgGen Qs.QsHbProofs Qs.QsHbGen.
+  Qs.QsFgProofs Qs.QsFgThms Qs.QsFgGen Qs.QsHbProofs Qs.QsHbBarrier Qs.QsHbGen.
 Local Open Scope N_scope.
 
 (* ---- generated obligations (recomputed from the current qs.hpp on every run) ---------------- *)
@@ -232,6 +232,20 @@ Proof.
 Qed.
 Print Assumptions C11_hb.
 
+(* ... and the same for quiescent_barrier(): [hleftq h b X = Some k]: X left the waiting set of b's
+   current barrier at its local time k; when the barrier returns, b's clock covers k.  (Uses in addition
+   the acquire on the counter load of quiescent_barrier's loop.) *)
+Theorem C11_hb_barrier :
+  forall U nown scripts sched h tr, NoDup U -> few U -> scripts_ok U nown scripts ->
+    gen_h_run sched (h0 scripts) [] = (h, tr) ->
+    forall t h' evs b, gen_h_step t h = (h', evs) -> In (WQbRet b) evs ->
+    forall X k, hleftq h b X = Some k -> (k <= vc (hk h') b X)%nat.
+Proof.
+  intros U nown scripts sched h tr ND HB Hok Hrun t h' evs b.
+  apply (gen_hb_barrier U nown scripts ND HB Hok sched h tr t h' evs b Hrun).
+Qed.
+Print Assumptions C11_hb_barrier.
+
 (* non-vacuity: two threads under a round-robin scheduler; thread 1 is online when thread 0 registers
    node 0 and leaves waiting(0) at its local time 16; when thread 0's run() invokes the callback it
    knows thread 1 up to time 26 *)
@@ -273,10 +287,7 @@ Print Assumptions C11_run_fires_wholeop.
 
    C11_liveness at access granularity: for every fair scheduler every call terminates (the CAS loops of
    await_barrier / quiescent_barrier retry only when [desired] grew, which is bounded by the target), and
-   the round theorem above for interleaved calls.
-
-   C11_hb for the return of quiescent_barrier() (the grace-period part is C11_grace_period; the
-   happens-before part is proved for callbacks only, see C11_hb below). *)
+   the round theorem above for interleaved calls. *)
 
 (* ---- non-vacuity (whole-operation) ---- *)
 
